@@ -120,10 +120,10 @@ open Jrpc.Redial in
 /-- C05_dial_spaced: in every run of the redial model, every dial happens at least `minDelay` after the
     later of (the start of its redial goroutine, the previous dial) — the chain also says that marks
     are ordered, so consecutive dials are `minDelay` apart. -/
-theorem C05_dial_spaced (c : Redial.Cfg) (es : List Redial.Ev) (s : Redial.St)
+theorem C05_dial_spaced (c : Redial.Cfg) (hlo : ∀ n, c.minDelay ≤ c.lo n) (es : List Redial.Ev) (s : Redial.St)
     (hr : Redial.run? c {} es = some s) :
     Redial.Chained c.minDelay s.dials ∧ ∀ p ∈ s.dials, p.1 + c.minDelay ≤ p.2 := by
-  have h := Redial.run_rinv c es {} s (Redial.rinv_init c) hr
+  have h := Redial.run_rinv c hlo es {} s (Redial.rinv_init c) hr
   refine ⟨h.chained, ?_⟩
   have : ∀ (l : List (Nat × Nat)), Redial.Chained c.minDelay l → ∀ p ∈ l, p.1 + c.minDelay ≤ p.2 := by
     intro l
@@ -142,17 +142,53 @@ theorem C05_dial_spaced (c : Redial.Cfg) (es : List Redial.Ev) (s : Redial.St)
   exact this s.dials h.chained
 
 /-- C05_no_busy_loop: a run that has lasted `now` time units contains at most `now / minDelay` dials. -/
-theorem C05_no_busy_loop (c : Redial.Cfg) (es : List Redial.Ev) (s : Redial.St)
+theorem C05_no_busy_loop (c : Redial.Cfg) (hlo : ∀ n, c.minDelay ≤ c.lo n) (es : List Redial.Ev) (s : Redial.St)
     (hr : Redial.run? c {} es = some s) : s.dials.length * c.minDelay ≤ s.now := by
-  have h := Redial.run_rinv c es {} s (Redial.rinv_init c) hr
+  have h := Redial.run_rinv c hlo es {} s (Redial.rinv_init c) hr
   exact Nat.le_trans h.count h.markNow
 
 /-- C05_noredial: a client without a dial factory (`WithNoReconnect`) never dials; a loss ends it. -/
-theorem C05_noredial (c : Redial.Cfg) (es : List Redial.Ev) (s : Redial.St)
+theorem C05_noredial (c : Redial.Cfg) (hlo : ∀ n, c.minDelay ≤ c.lo n) (es : List Redial.Ev) (s : Redial.St)
     (hc : c.reconnect = false) (hr : Redial.run? c {} es = some s) :
     s.dials = [] ∧ (s.pc = .up ∨ s.pc = .exited) := by
-  have h := Redial.run_rinv c es {} s (Redial.rinv_init c) hr
+  have h := Redial.run_rinv c hlo es {} s (Redial.rinv_init c) hr
   exact ⟨(h.noFact hc).2, (h.noFact hc).1⟩
+
+/-- C05_backoff_grows: attempt `n` of a redial cycle is dialled only after a sleep of at least
+    `lo n` — the backoff's lower bound for that attempt, which grows by the factor 1.5 per failed dial up to
+    the configured maximum (`Backoff.lo`) — and the attempt counter advances by exactly one per failed dial:
+    the sleep that follows the failed dial `m` is announced as attempt `m + 1`. -/
+theorem C05_backoff_grows (c : Redial.Cfg) (s s' : Redial.St) :
+    (∀ n t, Redial.step? c s (.dial n t) = some s' → ∃ since, s.pc = .sleeping n since ∧ since + c.lo n ≤ t) ∧
+    (∀ n t m, s.pc = .dialing m → Redial.step? c s (.sleep n t) = some s' → n = m + 1) := by
+  constructor
+  · intro n t hs
+    unfold Redial.step? at hs
+    split at hs
+    · simp at hs
+    · simp only at hs
+      split at hs
+      · rename_i m since hpc
+        split at hs
+        · rename_i hc
+          simp only [Bool.and_eq_true, decide_eq_true_eq] at hc
+          refine ⟨since, ?_, hc.2⟩
+          rw [hc.1]; exact hpc
+        · simp at hs
+      · simp at hs
+  · intro n t m hpc hs
+    unfold Redial.step? at hs
+    split at hs
+    · simp at hs
+    · simp only [hpc] at hs
+      split at hs
+      · assumption
+      · simp at hs
+
+/-- For a client configured with backoff `b` (min ≤ max) the hypothesis of the theorems above holds. -/
+theorem C05_cfg_ok (r : Bool) (b : Backoff) (hle : b.minDelay ≤ b.maxDelay) :
+    ∀ n, (Redial.Cfg.ofBackoff r b).minDelay ≤ (Redial.Cfg.ofBackoff r b).lo n :=
+  Redial.ofBackoff_lo r b hle
 
 /-- C05_heal: a successful redial puts the goroutine back into the state of a fresh connection (`up`),
     and from there a later loss starts a new redial cycle: nothing has to be recreated. -/
@@ -176,13 +212,17 @@ theorem C05_heals_again (c : Redial.Cfg) (s : Redial.St) (t : Nat)
   simp [this, hup, hg, hc, Redial.Ev.time]
 
 /-- Non-vacuity: loss, two failed dials 100 apart, success, a second loss. -/
-example : (Redial.run? ⟨true, 100⟩ {} [.loss 5, .spawn 6, .sleep 0 7, .dial 0 110, .sleep 1 111, .dial 1 300,
+example : (Redial.run? (Redial.Cfg.ofBackoff true ⟨100, 400⟩) {} [.loss 5, .spawn 6, .sleep 0 7, .dial 0 110, .sleep 1 111, .dial 1 300,
             .swap 301, .loss 400, .spawn 401, .sleep 0 402, .dial 0 502]).map (·.dials)
           = some [(401, 502), (110, 300), (6, 110)] := by decide
 /-- … and a dial that comes too early, or without its sleep, is not a behaviour of the model. -/
-example : Redial.run? ⟨true, 100⟩ {} [.loss 5, .spawn 6, .sleep 0 7, .dial 0 50] = none := by decide
-example : Redial.run? ⟨true, 100⟩ {} [.loss 5, .spawn 6, .dial 0 500] = none := by decide
-example : Redial.run? ⟨false, 100⟩ {} [.loss 5] = none := by decide
+example : Redial.run? (Redial.Cfg.ofBackoff true ⟨100, 400⟩) {} [.loss 5, .spawn 6, .sleep 0 7, .dial 0 50] = none := by decide
+example : Redial.run? (Redial.Cfg.ofBackoff true ⟨100, 400⟩) {} [.loss 5, .spawn 6, .dial 0 500] = none := by decide
+/-- … nor is a second attempt that waited only the minimum (the backoff must have grown to 150), nor one
+    announced under the same attempt number again. -/
+example : Redial.run? (Redial.Cfg.ofBackoff true ⟨100, 400⟩) {} [.loss 5, .spawn 6, .sleep 0 7, .dial 0 110, .sleep 1 111, .dial 1 230] = none := by decide
+example : Redial.run? (Redial.Cfg.ofBackoff true ⟨100, 400⟩) {} [.loss 5, .spawn 6, .sleep 0 7, .dial 0 110, .sleep 0 111] = none := by decide
+example : Redial.run? (Redial.Cfg.ofBackoff false ⟨100, 400⟩) {} [.loss 5] = none := by decide
 
 /-! ### The connection bookkeeping around a redial (`Jrpc.Corr`) -/
 
